@@ -1,5 +1,5 @@
 (* ConfigProofs.v - proofs about the model Config.v (property C17); statements collected in Props/C17.v *)
-From Coq Require Import String Ascii List ZArith NArith Bool Lia DecimalString.
+From Coq Require Import String Ascii List ZArith NArith Bool Lia DecimalString Permutation.
 From Jade Require Import Base Config.
 From Jade.Gen Require Import ConfigGen.
 Import ListNotations.
@@ -726,4 +726,137 @@ Proof.
   - intros e H. rewrite H. reflexivity.
   - intros c e H Hc. rewrite H, (submit_rejected c e Hc). reflexivity.
   - intros c H Hc. rewrite H, (submit_accepted c Hc). reflexivity.
+Qed.
+(* ---------- the error kind reported is truthful ---------- *)
+(* what each error kind of run_checks claims about the configuration *)
+Definition error_claim (c : config) (e : error) : Prop :=
+  match e with
+  | ENoGroups => c_groups c = []
+  | EGroupTwice n => exists g, In g (c_groups c) /\ g_name g = n /\ ~ NoDup (map g_name (c_groups c))
+  | EHpcType => exists g first, hd_error (c_groups c) = Some first /\ In g (c_groups c) /\ g_hpc_type g <> g_hpc_type first
+  | EMustBeSame p => In p spec_group_wide /\
+                     exists g first, hd_error (c_groups c) = Some first /\ In g (c_groups c) /\ g_param p g <> g_param p first
+  | EJobInvalidGroup n grp => exists j, In j (c_jobs c) /\ job_name j = n /\ j_group j = grp /\
+                                        ~ In grp (map g_name (c_groups c))
+  | EMissingEstimate => exists g j, In g (c_groups c) /\ g_batch_size g = JNum 0 /\ In j (c_jobs c) /\
+                                    j_group j = g_name g /\ j_est j = None
+  | EMissingBlocker => exists j b, In j (c_jobs c) /\ In b (j_blocked j) /\ ~ In (blocker_str b) (map job_name (c_jobs c))
+  | EWalltimeAssert => exists g, In g (c_groups c) /\ group_wall g = None
+  | ERuntime n => exists j g e w, In j (c_jobs c) /\ job_name j = n /\ In g (c_groups c) /\ g_name g = j_group j /\
+                                  j_est j = Some e /\ group_wall g = Some w /\ (w < e * 60)%Z
+  | _ => False
+  end.
+
+Lemma groups_loop_err first : forall gs seen e,
+  check_groups_loop first seen gs = Err e ->
+  (exists g, In g gs /\ e = EGroupTwice (g_name g) /\ ~ NoDup (map g_name gs ++ seen)) \/
+  (e = EHpcType /\ exists g, In g gs /\ g_hpc_type g <> g_hpc_type first) \/
+  (exists p g, e = EMustBeSame p /\ In p group_must_be_same /\ In g gs /\ g_param p g <> g_param p first).
+Proof.
+  induction gs as [|g r IH]; intros seen e; cbn [check_groups_loop]; [discriminate|].
+  destruct (mem (g_name g) seen) eqn:Em.
+  { intros H. injection H as <-. left. exists g. split; [cbn; auto|]. split; [reflexivity|].
+    apply mem_In in Em. cbn. intros Hn. inversion Hn as [|? ? Hx _]; subst. apply Hx, in_or_app. auto. }
+  destruct (json_eqb (g_hpc_type g) (g_hpc_type first)) eqn:Eh; cbn [negb].
+  2:{ intros H. injection H as <-. right. left. split; [reflexivity|]. exists g. split; [cbn; auto|].
+      apply json_eqb_neq. exact Eh. }
+  destruct (find _ group_must_be_same) as [p|] eqn:Ef.
+  { intros H. injection H as <-. right. right. apply find_some in Ef as [Hin Hneq].
+    apply negb_true_iff, json_eqb_neq in Hneq. exists p, g. repeat split; cbn; auto. }
+  intros H. destruct (IH _ _ H) as [[g' [Hg' [-> Hn]]]|[[-> [g' [Hg' Hd]]]|[p [g' [-> [Hp [Hg' Hd]]]]]]].
+  - left. exists g'. split; [cbn; auto|]. split; [reflexivity|]. intros Hnd. apply Hn.
+    cbn in Hnd. exact (Permutation.Permutation_NoDup (Permutation.Permutation_middle _ _ _) Hnd).
+  - right. left. split; [reflexivity|]. exists g'. split; [cbn; auto|exact Hd].
+  - right. right. exists p, g'. repeat split; cbn; auto.
+Qed.
+Lemma forallb_false_ex {A} (f : A -> bool) l : forallb f l = false -> exists x, In x l /\ f x = false.
+Proof.
+  induction l as [|a r IH]; cbn; [discriminate|]. intros H. apply andb_false_iff in H as [H|H].
+  - exists a. auto.
+  - destruct (IH H) as [x [Hx Hf]]. exists x. auto.
+Qed.
+Lemma jobs_groups_err names : forall js e, check_jobs_groups names js = Err e ->
+  exists j, In j js /\ e = EJobInvalidGroup (job_name j) (j_group j) /\ ~ In (j_group j) names.
+Proof.
+  induction js as [|j r IH]; intros e; cbn; [discriminate|]. destruct (mem (j_group j) names) eqn:E.
+  - intros H. destruct (IH e H) as [j' [Hj' X]]. exists j'. split; [auto|exact X].
+  - intros H. injection H as <-. exists j. split; [auto|]. split; [reflexivity|apply mem_false; exact E].
+Qed.
+Lemma submission_groups_err c e : check_submission_groups c = Err e -> error_claim c e.
+Proof.
+  unfold check_submission_groups. destruct (c_groups c) as [|first rest] eqn:Eg.
+  { intros H. injection H as <-. exact Eg. }
+  rewrite fields_assert_ok. cbn [negb].
+  destruct (check_groups_loop first [] (first :: rest)) as [names|e'] eqn:El.
+  - intros H. apply groups_loop_spec in El. destruct El as [-> _].
+    destruct (jobs_groups_err _ _ _ H) as [j [Hj [-> Hn]]]. cbn [error_claim]. exists j. repeat split; try assumption.
+    rewrite Eg. intros Hin. apply Hn. rewrite app_nil_r, <- in_rev. exact Hin.
+  - intros H. injection H as <-.
+    destruct (groups_loop_err _ _ _ _ El) as [[g [Hg [-> Hn]]]|[[-> [g [Hg Hd]]]|[p [g [-> [Hp [Hg Hd]]]]]]]; cbn [error_claim].
+    + exists g. rewrite Eg. repeat split; try assumption. rewrite app_nil_r in Hn. exact Hn.
+    + exists g, first. rewrite Eg. repeat split; assumption.
+    + split; [rewrite <- group_wide_ok; exact Hp|]. exists g, first. rewrite Eg. repeat split; assumption.
+Qed.
+Lemma estimates_err c e : check_estimates c = Err e -> error_claim c e.
+Proof.
+  unfold check_estimates. destruct (existsb (missing_estimate c) (c_groups c)) eqn:E; [|discriminate].
+  intros H. injection H as <-. apply existsb_exists in E as [g [Hg Hm]].
+  unfold missing_estimate in Hm. apply andb_true_iff in Hm as [Hb Hj]. apply json_eqb_true in Hb.
+  apply existsb_exists in Hj as [j [Hj Hx]]. apply andb_true_iff in Hx as [Hn He].
+  apply String.eqb_eq in Hn. cbn [error_claim]. exists g, j. repeat split; try assumption. destruct (j_est j); [discriminate|reflexivity].
+Qed.
+Lemma dependencies_err c e : check_dependencies c = Err e -> error_claim c e.
+Proof.
+  intros H. assert (e = EMissingBlocker) as ->.
+  { unfold check_dependencies in H. destruct (forallb _ _); [discriminate|]. injection H as <-. reflexivity. }
+  cbn [error_claim]. destruct (forallb (fun j => forallb (fun b => mem (blocker_str b) (map job_name (c_jobs c))) (j_blocked j)) (c_jobs c)) eqn:E.
+  - exfalso. assert (X : check_dependencies c = Ok tt); [|congruence]. apply dependencies_spec. intros j b Hj Hb.
+    rewrite forallb_forall in E. specialize (E j Hj). rewrite forallb_forall in E. apply mem_In, E, Hb.
+  - destruct (forallb_false_ex _ _ E) as [j [Hj Hf]]. destruct (forallb_false_ex _ _ Hf) as [b [Hb Hm]].
+    exists j, b. repeat split; try assumption. apply mem_false. exact Hm.
+Qed.
+Lemma runtimes_jobs_err walls : forall js e, check_runtimes_jobs walls js = Err e ->
+  (e = EGroupKey /\ exists j, In j js /\ assoc (j_group j) walls = None) \/
+  (exists j w est, In j js /\ e = ERuntime (job_name j) /\ assoc (j_group j) walls = Some w /\ j_est j = Some est /\ (w < est * 60)%Z).
+Proof.
+  induction js as [|j r IH]; intros e; cbn [check_runtimes_jobs]; [discriminate|].
+  destruct (assoc (j_group j) walls) as [w|] eqn:Ea.
+  2:{ intros H. injection H as <-. left. split; [reflexivity|]. exists j. cbn. auto. }
+  assert (R : check_runtimes_jobs walls r = Err e ->
+    (e = EGroupKey /\ exists j0, In j0 (j :: r) /\ assoc (j_group j0) walls = None) \/
+    (exists j0 w0 est, In j0 (j :: r) /\ e = ERuntime (job_name j0) /\ assoc (j_group j0) walls = Some w0 /\
+                       j_est j0 = Some est /\ (w0 < est * 60)%Z)).
+  { intros H. destruct (IH e H) as [[-> [j' [Hj' X]]]|[j' [w' [est [Hj' X]]]]].
+    - left. split; [reflexivity|]. exists j'. cbn. auto.
+    - right. exists j', w', est. cbn. auto. }
+  destruct (j_est j) as [est|] eqn:Ee; [|exact R].
+  destruct (w <? est * 60)%Z eqn:El; [|exact R].
+  intros H. injection H as <-. right. exists j, w, est. apply Z.ltb_lt in El. cbn. auto 10.
+Qed.
+Lemma runtimes_err c e : NoDup (map g_name (c_groups c)) ->
+  (forall j, In j (c_jobs c) -> In (j_group j) (map g_name (c_groups c))) ->
+  check_runtimes c = Err e -> error_claim c e.
+Proof.
+  intros Hnd Hjg. unfold check_runtimes. fold wall_entry.
+  destruct (traverse wall_entry (c_groups c)) as [walls|] eqn:Et.
+  - destruct (walls_some _ _ Et) as [H1 [H2 H3]]. specialize (H3 Hnd). intros H.
+    destruct (runtimes_jobs_err _ _ _ H) as [[-> [j [Hj Ha]]]|[j [w [est [Hj [-> [Ha [Ee Hlt]]]]]]]].
+    + exfalso. pose proof (Hjg j Hj) as Hin. apply in_map_iff in Hin as [g [En Hg]].
+      rewrite <- En, (H3 g Hg) in Ha. exact (H1 g Hg Ha).
+    + cbn [error_claim]. pose proof (Hjg j Hj) as Hin. apply in_map_iff in Hin as [g [En Hg]].
+      exists j, g, est, w. rewrite <- En, (H3 g Hg) in Ha. repeat split; assumption.
+  - intros H. injection H as <-. apply walls_none in Et as [g [Hg Hn]]. cbn [error_claim]. exists g. auto.
+Qed.
+Theorem checks_error_truthful c e : run_checks c = Err e -> error_claim c e.
+Proof.
+  rewrite run_checks_unfold.
+  destruct (result_unit_cases (check_submission_groups c)) as [E1|[e1 E1]]; rewrite E1.
+  2:{ intros H. injection H as <-. apply submission_groups_err. exact E1. }
+  destruct (proj1 (submission_groups_spec c) E1) as [_ [H2 [_ H4]]].
+  destruct (result_unit_cases (check_estimates c)) as [E2|[e2 E2]]; rewrite E2.
+  2:{ intros H. injection H as <-. apply estimates_err. exact E2. }
+  destruct (result_unit_cases (check_dependencies c)) as [E3|[e3 E3]]; rewrite E3.
+  2:{ intros H. injection H as <-. apply dependencies_err. exact E3. }
+  destruct (result_unit_cases (check_runtimes c)) as [E4|[e4 E4]]; rewrite E4; [discriminate|].
+  intros H. injection H as <-. apply (runtimes_err c e4 H2 H4 E4).
 Qed.
